@@ -135,6 +135,8 @@ class Sched:
         def local(frame, event, arg):
             if event == "line" and gran == "line":
                 self.switch_point(me)
+            elif event == "opcode" and gran == "opcode":
+                self.switch_point(me)
             return local
 
         def glob(frame, event, arg):
@@ -144,6 +146,9 @@ class Sched:
             if not fn.startswith(PKG_DIR):
                 return None
             self.switch_point(me)
+            if gran == "opcode":
+                frame.f_trace_opcodes = True      # every bytecode of library code is a switch point
+                return local
             return local if gran == "line" else None
         return glob
 
